@@ -1,10 +1,10 @@
 import CM.Proofs.Refs
+import CM.Proofs.Label
 import CM.Spec.Label
 /-
 C12 — references resolve by normalised label; first definition wins.
 Proved here: clause (b) for the extraction (`Extract` = first definition in document pre-order, for every
-forest of trees). Clause (a) (`normalizeLabel = normalizeLabelSpec`) is a stated target checked exhaustively
-on small scope by the check; clause (c) (a reference node exists iff its label is a key) needs the inline
+forest of trees). Clause (a) (`normalizeLabel = normalizeLabelSpec`) is `normalize_eq_spec` below; clause (c) (a reference node exists iff its label is a key) needs the inline
 parser model and is monitored on the implementation.
 -/
 namespace CM.Props.C12
@@ -28,8 +28,28 @@ theorem earlier_block_wins (ext : Ext) (src : Bytes) (t : Tree) (m : RefMap) (k 
   rw [extract_is_preorder]
   exact lookup_insAll_of_some m _ k h
 
-/-- Clause (a), target. -/
-def normalize_eq_spec_target : Prop :=
-  ∀ (fold : Bytes → Bytes) (label : Bytes), normalizeLabel fold label = Spec.normalizeLabelSpec fold label
+/-- Clause (a): the label normalisation of the code (collapse runs of space/tab/line ending to one space, trim
+    spaces, fold) equals the specification's "case fold, strip, collapse" for every label and every fold. -/
+theorem normalize_eq_spec (fold : Bytes → Bytes) (label : Bytes) :
+    normalizeLabel fold label = Spec.normalizeLabelSpec fold label :=
+  Proofs.normalize_eq_spec fold label
+
+/-- Labels that differ only in the amount or kind of white space have the same normal form. -/
+theorem normalize_ws_variants (fold : Bytes → Bytes) (a b : Bytes) (h : Spec.words a = Spec.words b) :
+    normalizeLabel fold a = normalizeLabel fold b :=
+  Proofs.normalize_ws_variants fold a b h
+
+/-- The white-space normal form is a normal form: idempotent, and exactly the labels without leading/trailing
+    white space whose white space is single `0x20` bytes are its fixed points. -/
+theorem wsNormal_idem (label : Bytes) : Spec.wsNormal (Spec.wsNormal label) = Spec.wsNormal label :=
+  Proofs.wsNormal_idem label
+
+theorem wsNormal_fixed_iff (l : Bytes) : Proofs.isWsNormal l = true ↔ Spec.wsNormal l = l :=
+  Proofs.isWsNormal_iff_fixed l
+
+-- Non-vacuity
+private def b (s : String) : Bytes := s.toUTF8.toList
+example : normalizeLabel id (b " \tFoo \r\n  bar\t") = b "Foo bar" := by decide +kernel
+example : Spec.words (b "Foo\n bar") = Spec.words (b " Foo bar ") ∧ b "Foo\n bar" ≠ b " Foo bar " := by decide +kernel
 
 end CM.Props.C12
